@@ -211,7 +211,8 @@ def rand_case(rng, max_ops):
         names.insert(rng.randint(0, len(names)), INTERNAL)
     aliases = rand_aliases(rng, names)
     if aliases and not cyclic(aliases) and rng.random() < 0.04:
-        aliases.append([rng.choice(ATTR_NAMES), rng.choice(names)])
+        # (not `span` for a linker: there span is a constructor KEYWORD, which AliasMixin would hand on under the variable's name)
+        aliases.append([rng.choice([a for a in ATTR_NAMES if not (kind == 'linker' and a == 'span')]), rng.choice(names)])
     case = {'kind': kind, 'span': span, 'strict': kind == 'model' and rng.random() < 0.2, 'names': names,
             'dreq': rng.choice(['f', 'f', 'f', 'f', 'i', 's', 'b']), 'default': S(rng.choice([['f', 0], ['i', 1], ['f', 3]])),
             'aliases': aliases, 'preferred': rand_preferred(rng, aliases, names), 'extra': 0, 'ops': [], 'ivs': []}
@@ -784,7 +785,7 @@ def _oracle(case, obs):
     #      names" (reads and writes through it go different ways): the constructor must refuse it
     clash = sorted(k for k, _ in al if chain_end(al, k) != k and k in obs.get('twin_has', []))
     if clash and obs.get('twin_init') == 'ok':
-        if obs['init'] != 'InitialisationError':
+        if obs['init'] == 'ok':            # (WHICH exception: compared with the model, K)
             bad('__init__|clashing-alias-accepted', 'ALIASES %s: %s are also names of variables / attributes of the object, the constructor gave %s' % (
                 dict(al), clash, obs['init']))
         return fails
